@@ -9,7 +9,8 @@
 //!   diagnostic = sev:class:sl:sc:el:ec:keycps   sev 2 = WARNING, 1 = ERROR;
 //!   class U = "Unused var: <key>", D = "Var name already declared" (key "-"), ? = anything else.
 //! A trailing "!POS" marks a tree in which the left operand of a '.' has get_pos() != get_range().start
-//! (the model reads positions from ranges; see ASSUMPTIONS of checks/c15.py) - never seen.
+//! (the model of the analyser BEFORE the repair of tools/c15_proposed_fix.diff, UnusedVar.analyze_old, reads
+//! positions from ranges; the analyser as it is does not look at positions) - never seen.
 use std::cell::RefCell;
 use std::rc::Rc;
 use std::sync::Arc;
